@@ -37,6 +37,8 @@ rule("C04.g", "an option string is normalised the same way everywhere it is comp
      props=["C04", "C03"])
 rule("C07.y", "twin statements - two neighbouring statements that are equal up to a consistent renaming - use the same comparison "
               "operators (`<=` next to `<` for the same test on two sequences is a slip in one of them)", floor=1, props=["C07", "C13"])
+rule("C07.v", "dual twins clip alike: two neighbouring assignments to dual targets (l / u, lower / upper, min / max, in / out) either both "
+              "clip their value (np.minimum / np.maximum / min / max / clip) or neither does", floor=10, props=["C07", "C16"])
 rule("C19.l", "a loop over consecutive intervals skips an interval without steps (`continue`); it does not stop at it (`break`): intervals "
               "before the grid are empty as well as those behind it", floor=0, props=["C19", "C08", "C13"])
 rule("C16.k", "scale homogeneity of the bounds: wherever the scale range (min_scale / max_scale) multiplies a quantity of the base asset "
@@ -65,7 +67,7 @@ def _prop_rule(fn):
     return "C07.n"
 
 
-@analysis("siblings", ["C07.n", "C02.f", "C19.f", "C07.o", "C09.f", "C07.p", "C11.h", "C03.g", "C07.t", "C04.g", "C05.m", "C06.l", "C02.h", "C12.g", "C07.y", "C19.l", "C16.k"])
+@analysis("siblings", ["C07.n", "C02.f", "C19.f", "C07.o", "C09.f", "C07.p", "C11.h", "C03.g", "C07.t", "C04.g", "C05.m", "C06.l", "C02.h", "C12.g", "C07.y", "C19.l", "C16.k", "C07.v"])
 def run(ctx):
     p = ctx.p
     # ================================================================= C07.n decided branches
@@ -513,6 +515,42 @@ def run(ctx):
                            " / ".join("%s and %s" % d for d in diff), ka.ops, kb.ops), node=b)
     ctx.require(n_y >= 1, "no twin statements found (periods / durations of the periodic merge)", rules=["C07.y"])
 
+    # ================================================================= C07.v dual twins
+    import re as _re
+    DUALS = [("l", "u"), ("min", "max"), ("minimum", "maximum"), ("lower", "upper"), ("start", "end"), ("in", "out"), ("L", "U")]
+
+    def _ctok(t):
+        for a0, b0 in DUALS:
+            if t in (a0, b0):
+                return "<%s>" % a0
+        parts = t.split("_")
+        if len(parts) > 1:
+            return "_".join(_ctok(x) for x in parts)
+        return t
+
+    def _canon(txt):
+        return _re.sub(r"[A-Za-z_][A-Za-z_0-9]*", lambda m: _ctok(m.group(0)), txt)
+    CLIPS = {"minimum", "maximum", "min", "max", "clip", "fmin", "fmax"}
+    for fn in sorted(p.all_functions(), key=lambda f: f.qualname):
+        if fn.parent is not None:
+            continue
+        blocks = [fn.body] + [b for s0 in au.walk_stmts(fn.body) for b in (getattr(s0, "body", None), getattr(s0, "orelse", None)) if isinstance(b, list) and b]
+        for blk in blocks:
+            for a, b in zip(blk, blk[1:]):
+                if not (isinstance(a, ast.Assign) and isinstance(b, ast.Assign) and len(a.targets) == 1 and len(b.targets) == 1):
+                    continue
+                ta, tb = au.U(a.targets[0]), au.U(b.targets[0])
+                if ta == tb or _canon(ta) != _canon(tb):
+                    continue
+                ca = sorted(au.method_name(c) for c in au.walk_local(a.value) if isinstance(c, ast.Call) and au.method_name(c) in CLIPS)
+                cb = sorted(au.method_name(c) for c in au.walk_local(b.value) if isinstance(c, ast.Call) and au.method_name(c) in CLIPS)
+                ctx.ob("C07.v", fn, "%s / %s" % (au.short(a.targets[0], 30), au.short(b.targets[0], 30)), len(ca) == len(cb),
+                       "`%s` clips its value (%s) but its twin `%s` does not (%s): the two bounds of the same variables are treated "
+                       "differently - e.g. the rescaled upper bound of a scaled asset's dispatch variables is no longer cut at 0, so a base asset "
+                       "with a negative upper capacity forces the scale up (value -3753 at scale 1.2 instead of 0 at scale 0)" % (
+                           au.short(a if len(ca) > len(cb) else b, 60), ", ".join(ca if len(ca) > len(cb) else cb),
+                           au.short(b if len(ca) > len(cb) else a, 60), ", ".join(cb if len(ca) > len(cb) else ca) or "no clip"), node=b)
+
     # ================================================================= C19.l stop at an empty interval
     for fn in sorted(p.all_functions(), key=lambda f: f.qualname):
         if fn.parent is not None:
@@ -624,6 +662,15 @@ def run(ctx):
             if not all(any(au.U(y) == au.U(side) for y in au.walk_local(x.value)) for x in terms):
                 continue
             neutral = isinstance(t.ops[0], ast.NotEq) and au.const_num(other) == 0
+            if not neutral and isinstance(t.ops[0], ast.Gt) and au.const_num(other) == 0 and t.left is side:
+                # `p > 0` is the same as `p != 0` when the constructor asserts p >= 0
+                for c in p.mro(fn.cls):
+                    init = c.methods.get("__init__")
+                    for a0 in ([x for x in au.walk_stmts(init.body) if isinstance(x, ast.Assert)] if init else []):
+                        tt = a0.test
+                        if isinstance(tt, ast.Compare) and len(tt.ops) == 1 and isinstance(tt.ops[0], (ast.GtE, ast.Gt)) and au.const_num(tt.comparators[0]) == 0 \
+                                and au.U(tt.left) in (side.attr, au.U(side)):
+                            neutral = True
             ctx.ob(rid, fn, "if %s: %s" % (au.short(t, 40), au.short(terms[0], 50)), neutral,
                    "the term is applied only under `%s`; for the values that fail this test and are not zero (a negative %s - a drain - is a "
                    "legal value that the set-up applies like any other) the term is silently dropped: the reported level leaves out the "
